@@ -19,15 +19,15 @@ CHECKS = {
          "Group ids <= 100000, ids <= 10^6; names unique and NUL-free. The independent decoder defines the byte format.",
          "DESIGN.md §6 C03"),
  "C04": ("exploration", "metamorphic testing over generated schedule sets: the same collection created 5..12 times with different thread counts, queue capacities, producer delays and seeded worker-side perturbation (hook H2); oracle = identical SHA-256",
-         "48 (quick) / 800 (thorough) collections, ~300 / ~8000 creates; two fifths are single PanSN files with sync-token rounds every 1..8 contigs, thread counts from {1,2,3,4,8,16} with at least three distinct per case.",
+         "32 (quick) / 800 (thorough) collections, ~200 / ~8000 creates; two fifths are single PanSN files with sync-token rounds every 1..8 contigs, thread counts from {1,2,3,4,8,16} with at least three distinct per case.",
          "Real-thread interleavings are sampled with perturbation, not owned: a race that needs a window the hook points never open can be missed. This is randomised schedule generation, not model checking.",
          "DESIGN.md §6 C04"),
  "C05": ("exploration", "generated (workers, capacity, sync placement, delays, perturbation) configurations of the real pipeline in a child process with an event-log based stuck-state proof, plus shuttle random/PCT schedule exploration of the real queue source under a skeleton of the protocol",
-         "192 (quick) / 6000 (thorough) pipeline runs incl. capacities below one contig and explicit sync_and_flush; 5*10^4 (quick) / 2*10^6 (thorough) shuttle schedules of the 1-producer / 1..4-worker / 0..3-round skeleton.",
+         "192 (quick) / 6000 (thorough) pipeline runs incl. capacities below one contig and explicit sync_and_flush; 1.75*10^5 (quick) / 3.5*10^6 (thorough) shuttle schedules of the 1-producer / 1..4-worker / 0..3-round skeleton.",
          "Bounded liveness: a run either returns within the watchdog or the log must prove the stuck state; slow-but-live is inconclusive (exit 2). The exhaustive N<=3 exploration the quantifier mentions would be model checking, which this technique family does not do; shuttle's randomised schedulers are the in-family substitute.",
          "DESIGN.md §6 C05"),
  "C06": ("exploration", "sequential model-based testing + shuttle random/PCT schedule exploration of the real queue source with an under-lock event log replayed against the sequential model + real-thread runs with the same log-replay oracle",
-         "2*10^5 (quick) / 4*10^6 (thorough) sequential histories; 7*10^4 / 2.6*10^6 shuttle schedules (p<=3, c<=3, <=8 items, racing close); 480 / 10^4 real-thread runs with up to 16 threads.",
+         "10^6 (quick) / 10^7 (thorough) sequential histories; 2.6*10^5 / 5*10^6 shuttle schedules (p<=3, c<=3, <=8 items, racing close); 960 / 2*10^4 real-thread runs with up to 16 threads.",
          "Concurrent legs assume every item fits the capacity (the statement's precondition). Schedules are randomised (seeded), not exhaustive.",
          "DESIGN.md §6 C06"),
  "C07": ("exploration", "proptest archives x enumerated / junction-centred (start,end) ranges; oracle = slice of the full extraction",
@@ -39,23 +39,23 @@ CHECKS = {
          "Errors are compared as 'is an error'. Thread interleavings of the cloned readers are whatever the OS schedules (the handles share no state by construction; a violation needs shared state, which any schedule exposes as a changed value).",
          "DESIGN.md §6 C08"),
  "C09": ("exploration", "exhaustive small-alphabet pairs + proptest edit-script-derived (reference, target) pairs; round-trip oracle plus independent LZ-text decoder",
-         "All pairs with |ref|,|target| <= 6 over {A,C,N} (1.2*10^6), all targets <= 5 over {A,C,G,T,N,30} against fixed references, N runs 1..8 at all offsets are enumerated; 6*10^5 (quick) / 6*10^6 (thorough) structured random pairs up to 2 kb / 40 kb exercise matches, back-extension, '!' rewriting, elided lengths, N runs, code 30.",
+         "All pairs with |ref|,|target| <= 6 over {A,C,N} (1.2*10^6), all targets <= 5 over {A,C,G,T,N,30} against fixed references, N runs 1..8 at all offsets are enumerated; 3*10^6 (quick) / 3*10^7 (thorough) structured random pairs up to 2 kb / 40 kb exercise matches, back-extension, '!' rewriting, elided lengths, N runs, code 30.",
          "min match >= 5; the independent decoder defines the LZ-diff V2 text.",
          "DESIGN.md §6 C09"),
  "C10": ("exploration", "exhaustive short contigs + proptest contigs with splitter sets built from their own k-mers; positional tiling oracle from the statement",
-         "All contigs <= 9 over {A,C,N} for k<=3 (both entry points) are enumerated; 3*10^5 (quick) / 5*10^6 (thorough) random cases with k 1..32, dense / sparse / forced-last-k / adjacent splitters.",
+         "All contigs <= 9 over {A,C,N} for k<=3 (both entry points) are enumerated; 2*10^6 (quick) / 3*10^7 (thorough) random cases with k 1..32, dense / sparse / forced-last-k / adjacent splitters.",
          "Which splitter occurrences are used is deliberately not asserted (not part of the statement).",
          "DESIGN.md §6 C10"),
  "C11": ("exploration", "proptest references vs naive k-mer counting, metamorphic permutation / reverse-complement relation, cross-variant and cross-thread-pool agreement",
-         "8*10^3 (quick) / 1.5*10^5 (thorough) references with repeats, duplicated contigs, N runs; a quarter of them also through the streaming / first-sample file variants (plain and gzip) and rayon pools of 1/2/4/16 threads.",
+         "2.4*10^4 (quick) / 3*10^5 (thorough) references with repeats, duplicated contigs, N runs; a quarter of them also through the streaming / first-sample file variants (plain and gzip) and rayon pools of 1/2/4/16 threads.",
          "FASTA files passed to the file-based variants contain no record without bases.",
          "DESIGN.md §6 C11"),
  "C12": ("exploration", "exhaustive short byte strings per symbol range + proptest strings on both sides of the repetitiveness threshold; inverse-function and independent-unpacker oracles",
-         "2.2*10^5 strings enumerated (all lengths/remainders for widths 4/3/2/1, max-symbol boundaries 3/4 5/6 15/16 at lengths 0..40); 6*10^3 (quick) / 2*10^5 (thorough) random strings up to 100 kB through both reference markers, all levels, and fresh-vs-reused compression contexts.",
+         "2.2*10^5 strings enumerated (all lengths/remainders for widths 4/3/2/1, max-symbol boundaries 3/4 5/6 15/16 at lengths 0..40); 2.4*10^4 (quick) / 4*10^5 (thorough) random strings up to 100 kB through both reference markers, all levels, and fresh-vs-reused compression contexts.",
          "The zstd crate's decoder is the reference for ZSTD frames.",
          "DESIGN.md §6 C12"),
  "C13": ("exploration", "model-based (stateful) testing: generated operation histories vs a sequential container model and an independent footer parser; integer codec vs the format rule",
-         "6*10^3 (quick) / 1.5*10^5 (thorough) histories of register / add / add-buffered / flush / set-raw-size with metadata at every byte-length boundary, reopen, sequential and random-access reads; 4*10^5+ integer magnitudes.",
+         "6*10^4 (quick) / 10^6 (thorough) histories of register / add / add-buffered / flush / set-raw-size with metadata at every byte-length boundary, reopen, sequential and random-access reads; 2*10^6+ integer magnitudes.",
          "Buffered parts use registered stream ids; file offsets stay < 2^32 (magnitudes up to 2^64-1 are covered for the integer codec and metadata only).",
          "DESIGN.md §6 C13"),
  "C14": ("fault_enumeration", "enumeration of every strict prefix (crash point) of generated archives, opened in resource-limited child processes in two build profiles",
@@ -83,7 +83,7 @@ CHECKS = {
          "A byte difference is only blamed on presentation when two runs of the same presentation agree.",
          "DESIGN.md §6 C19"),
  "C20": ("exploration", "exhaustive enumeration of small k / short strings + proptest random strings vs naive string model",
-         "All 4^k windows for k<=8 and all strings up to length k+3 over {A,C,G,T,N} for small k are enumerated; k up to 32 (weighted to 31/32) is sampled with 2*10^5 (quick) / 5*10^6 (thorough) random strings. Exploration is the right level: the property is a pure function law and the risky region (k=32, shift 0) is reached by construction.",
+         "All 4^k windows for k<=8 and all strings up to length k+3 over {A,C,G,T,N} for small k are enumerated; k up to 32 (weighted to 31/32) is sampled with 3*10^6 (quick) / 4*10^7 (thorough) random strings. Exploration is the right level: the property is a pure function law and the risky region (k=32, shift 0) is reached by construction.",
          "Trusts the naive model in vlib/src/naive.rs (string reversal, left-aligned 2-bit packing). Callers' reset-at-non-ACGT protocol is part of the checked behaviour.",
          "DESIGN.md §6 C20"),
 }
